@@ -5116,6 +5116,7 @@ class TLSConnection(TLSRecordLayer):
 
         for certs, key in chain([(certList, private_key)], alt_certs):
             supported = TLSConnection._sigHashesToList(settings,
+                                                       privateKey=key,
                                                        certList=certs,
                                                        version=version)
             for schemeID in supported:
